@@ -20,7 +20,7 @@ EXPLANATION = ("Real l2_learning.LearningSwitch._handle_PacketIn, of_01.Connecti
 FUNCTIONS = ["pox.forwarding.l2_learning.LearningSwitch._handle_PacketIn/l2_learning._handle_ConnectionUp", "pox.openflow.of_01.Connection + handshake/default handlers",
              "pox.datapaths.switch.SoftwareSwitch.rx_packet/_rx_flow_mod/_rx_packet_out/send_packet_in/OFConnection", "libopenflow_01 pack/unpack (both directions)"]
 BOUNDS = {}
-OUTSIDE = ["more than 3 frames, more than 1 switch, topologies with loops", "_flood_delay hold-down (0)", "frames other than the 18-byte test frame shape"]
+OUTSIDE = ["more than 2 frames in the quick tier / 3 in the thorough tier, more than 1 switch, topologies with loops", "_flood_delay hold-down (0)", "frames other than the 18-byte test frame shape"]
 ASSUMPTIONS = ["controller and switch exchange bytes through in-memory pipes pumped to quiescence after every frame; virtual clock shared by all modules"]
 
 NPORTS = 3
@@ -79,8 +79,8 @@ def h_frames(ctx, nframes, buffers, sweep):
   net = Net(ctx, buffers)
   of = net.of
   ctx.check('handshake completed', net.con.connect_time is not None and net.nexus.getConnection(7) is net.con)
-  seen = {}      # reference: mac (as list of byte terms) -> most recent port ; stored as list of (mac, port) newest last
-  hist = []
+  hist = []      # reference: (source mac, port) in arrival order
+  swallowed = False
   for i in range(nframes):
     src = ctx.bytes('src%d' % i, 6); dst = ctx.bytes('dst%d' % i, 6)
     ctx.assume((src[0] & 1) == 0)                         # a source address is unicast
@@ -100,7 +100,7 @@ def h_frames(ctx, nframes, buffers, sweep):
     net.pump()
     got = list(net.outs)
     ports = [p for p, _ in got]
-    tag = 'frame %d: ' % i
+    tag = ('[after-drop-flow] ' if swallowed else '') + 'frame %d: ' % i
     ctx.check(tag + 'never out of the ingress port', all(p != int(inport) for p in ports))
     ctx.check(tag + 'never twice on a port', len(ports) == len(set(ports)))
     for p, b in got: ctx.check(tag + 'frame delivered unmodified', ctx.Eq(b, raw))
@@ -112,6 +112,7 @@ def h_frames(ctx, nframes, buffers, sweep):
     if cached:
       ctx.witness('cached-flow')
       outp = [a.port for a in cached[0].actions if isinstance(a, of.ofp_action_output)]
+      if not outp: swallowed = True       # a cached *drop* flow (installed without in_port) consumed the frame: the controller did not see it (known finding)
       ctx.check(tag + 'cached flow decides', sorted(ports) == sorted(int(x) for x in outp if int(x) != int(inport)))
       if where: ctx.check(tag + 'cached flow delivers only where dst was seen', all(p in [int(x) for x in where] for p in ports))
     elif bool(filtered):
@@ -132,8 +133,8 @@ def h_frames(ctx, nframes, buffers, sweep):
 def obligations(tier):
   thorough = tier != 'quick'
   cases = [dict(nframes=1, buffers=0, sweep=False), dict(nframes=2, buffers=0, sweep=False), dict(nframes=2, buffers=2, sweep=False),
-           dict(nframes=2, buffers=2, sweep=True), dict(nframes=3, buffers=2, sweep=False)]
-  if thorough: cases += [dict(nframes=3, buffers=0, sweep=False), dict(nframes=3, buffers=2, sweep=True), dict(nframes=3, buffers=1, sweep=True)]
+           dict(nframes=2, buffers=2, sweep=True), dict(nframes=2, buffers=1, sweep=True)]
+  if thorough: cases += [dict(nframes=3, buffers=2, sweep=False), dict(nframes=3, buffers=0, sweep=False), dict(nframes=3, buffers=2, sweep=True)]
   BOUNDS[tier] = dict(switches=1, ports=NPORTS, frames=[c['nframes'] for c in cases], macs="48-bit symbolic source/destination per frame (all aliasing patterns)",
                       ingress="symbolic port", gaps="0..45 s symbolic with an expiry sweep before each frame (sweep cases)", buffering=sorted({c['buffers'] for c in cases}))
   return [Obligation('O1_frames', h_frames, cases, witnesses=('done', 'flood', 'unicast-known', 'filtered', 'cached-flow'), max_decisions=40000,
